@@ -71,94 +71,42 @@ theorem execOp_refInv (s : St) (op : Op) (hr : RefInv s) : RefInv (execOp s op).
     · rfl
     · exact hr x hx
 
-theorem noDue_armed_of_keys (s s' : St) (he : s'.epoch = s.epoch)
-    (hk : ∀ k, drOk s.epoch (core (s.key k)) (core (s'.key k)))
-    (hd : NoDueRm s) (ha : ∀ k r e, s.key k = some r → r.deferRemove = some e → e ≤ s.epoch) :
-    NoDueRm s' ∧ ∀ k r e, s'.key k = some r → r.deferRemove = some e → e ≤ s'.epoch := by
-  have key : ∀ k r e, s'.key k = some r → r.deferRemove = some e → ¬ e < s.epoch ∧ e ≤ s.epoch := by
-    intro k r e hkr hdr
-    have hc : core (s'.key k) = some (r.data, some e) := by simp [core, hkr, hdr]
-    rcases hk k with h | h | ⟨d, h⟩ | ⟨d, h⟩
-    · rw [hc] at h
-      cases hr0 : s.key k with
-      | none => simp [core, hr0] at h
-      | some r0 =>
-        simp [core, hr0] at h
-        exact ⟨hd k r0 e hr0 h.2.symm, ha k r0 e hr0 h.2.symm⟩
-    · rw [hc] at h; simp at h
-    · rw [hc] at h; simp at h
-    · rw [hc] at h; simp at h; omega
-  exact ⟨fun k r e h1 h2 => by rw [he]; exact (key k r e h1 h2).1,
-         fun k r e h1 h2 => by rw [he]; exact (key k r e h1 h2).2⟩
-
-theorem rinv_of_same {s s' : St} (hI : RInv s) (hk : s'.keys = s.keys) (hr : s'.refs = s.refs)
-    (he : s'.epoch = s.epoch) (hc : s'.call ≠ .idle → s.call ≠ .idle) : RInv s' :=
-  ⟨refInv_of_refs hr hI.refs, fun h => noDueRm_keys hk he (hI.due (hc h)),
-   fun k r e h1 h2 => by rw [he]; exact hI.armed k r e (by simpa [St.key, hk] using h1) h2⟩
-
-theorem rinv_touch {k : Nat} {s s' : St} (hI : RInv s) (T : Touch k s s') : RInv s' := by
-  have hk : ∀ k', drOk s.epoch (core (s.key k')) (core (s'.key k')) := fun k' => Or.inl (T.quiet.core k')
-  refine ⟨refInv_of_refs T.frame.refs hI.refs, ?_, ?_⟩
-  · intro hc
-    rw [T.frame.call] at hc
-    exact noDueRm_touch T (hI.due hc)
-  · intro k' r e h1 h2
-    rw [T.frame.epoch]
-    have hc := T.quiet.core k'
-    rw [h1] at hc
-    cases hr0 : s.key k' with
-    | none => simp [core, hr0] at hc
-    | some r0 =>
-      simp [core, hr0] at hc
-      exact hI.armed k' r0 e hr0 (by rw [← hc.2, h2])
+theorem rinv_of_refs {s s' : St} (hI : RInv s) (hr : s'.refs = s.refs) : RInv s' :=
+  ⟨refInv_of_refs hr hI.refs⟩
 
 theorem rinv_step (s s' : St) (e : Ev) (hI : RInv s) (h : step s e = some s') : RInv s' := by
   cases e with
   | config c =>
     simp only [step] at h
     split at h
-    · simp at h; subst h; exact rinv_of_same hI rfl rfl rfl id
+    · simp at h; subst h; exact rinv_of_refs hI rfl
     · simp at h
   | inv id op =>
     simp only [step] at h
     split at h
     · simp at h
     · split at h
-      · rename_i hg
-        simp at h; subst h
-        exact ⟨hI.refs, fun _ => noDueRm_of_noDue s hg.2.1, hI.armed⟩
+      · simp at h; subst h; exact rinv_of_refs hI rfl
       · simp at h
-  | exec =>
+  | exec id =>
     simp only [step] at h
     split at h
-    · rename_i id op hc
+    · rename_i op hc
       simp at h; subst h
-      have hd := hI.due (by simp [hc])
-      have hk := execOp_keys s op
-      have := noDue_armed_of_keys s (execOp s op).1 hk.1 hk.2 hd hI.armed
-      exact ⟨execOp_refInv s op hI.refs, fun _ => this.1, this.2⟩
+      exact ⟨execOp_refInv s op hI.refs⟩
     · simp at h
   | ctor k d =>
     simp only [step] at h
     split at h
-    · rename_i hc
-      split at h
-      · simp at h; subst h; exact rinv_of_same hI rfl rfl rfl (fun _ => by simp [hc])
-      · simp at h
+    · simp at h; subst h; exact rinv_of_refs hI rfl
     · simp at h
   | ret id res =>
     simp only [step] at h
     split at h
-    · split at h
-      · simp at h; subst h; exact rinv_of_same hI rfl rfl rfl (fun h => absurd rfl h)
-      · simp at h
+    · simp at h; subst h; exact rinv_of_refs hI rfl
     · simp at h
-  | proceed g i =>
-    have := instStep_abs s s' g i _ h
-    exact rinv_of_same hI this.2.1 this.2.2.1 this.2.2.2.2 (by rw [this.2.2.2.1]; exact id)
-  | bail g i =>
-    have := instStep_abs s s' g i _ h
-    exact rinv_of_same hI this.2.1 this.2.2.1 this.2.2.2.2 (by rw [this.2.2.2.1]; exact id)
+  | proceed g i => exact rinv_of_refs hI (instStep_abs s s' g i _ h).2.2.1
+  | bail g i => exact rinv_of_refs hI (instStep_abs s s' g i _ h).2.2.1
   | cbin j g i k d =>
     simp only [step] at h
     split at h
@@ -167,18 +115,15 @@ theorem rinv_step (s s' : St) (e : Ev) (hI : RInv s) (h : step s e = some s') : 
       · split at h
         · simp at h
         · split at h
-          · simp at h; subst h; exact rinv_of_same hI rfl rfl rfl id
+          · simp at h; subst h; exact rinv_of_refs hI rfl
           · simp at h
     · simp at h
   | cbout j o =>
     simp only [step] at h
     split at h
     · simp at h
-    · have := instStep_abs s s' _ _ _ h
-      exact rinv_of_same hI this.2.1 this.2.2.1 this.2.2.2.2 (by rw [this.2.2.2.1]; exact id)
-  | closeExit g i =>
-    have := instStep_abs s s' g i _ h
-    exact rinv_of_same hI this.2.1 this.2.2.1 this.2.2.2.2 (by rw [this.2.2.2.1]; exact id)
+    · exact rinv_of_refs hI (instStep_abs s s' _ _ _ h).2.2.1
+  | closeExit g i => exact rinv_of_refs hI (instStep_abs s s' g i _ h).2.2.1
   | record g i =>
     simp only [step] at h
     split at h
@@ -186,7 +131,7 @@ theorem rinv_step (s s' : St) (e : Ev) (hI : RInv s) (h : step s e = some s') : 
     · split at h
       · simp at h
       · split at h
-        · simp at h; subst h; exact rinv_touch hI (touch_recordInst s g i _ _)
+        · simp at h; subst h; exact rinv_of_refs hI (touch_recordInst s g i _ _).frame.refs
         · simp at h
   | timerRemove k =>
     simp only [step] at h
@@ -194,27 +139,7 @@ theorem rinv_step (s s' : St) (e : Ev) (hI : RInv s) (h : step s e = some s') : 
     · rename_i r hr
       split at h
       · simp at h; subst h
-        have hk : ∀ k', drOk s.epoch (core (s.key k')) (core ((removeNow s k r).key k')) := by
-          intro k'
-          by_cases hkk : k' = k
-          · subst hkk; right; left; simp [removeNow, core]
-          · left; simp [removeNow, hkk]
-        have he : (removeNow s k r).epoch = s.epoch :=
-          ((frame_cancelOpt s r.gen r.cancelOf).trans (frame_setRec _ k none)).epoch
-        have hrf : (removeNow s k r).refs = s.refs :=
-          ((frame_cancelOpt s r.gen r.cancelOf).trans (frame_setRec _ k none)).refs
-        have hcl : (removeNow s k r).call = s.call :=
-          ((frame_cancelOpt s r.gen r.cancelOf).trans (frame_setRec _ k none)).call
-        refine ⟨refInv_of_refs hrf hI.refs, ?_, ?_⟩
-        · intro hc
-          rw [hcl] at hc
-          exact (noDue_armed_of_keys s _ he hk (hI.due hc) hI.armed).1
-        · intro k' r' e h1 h2
-          rw [he]
-          by_cases hkk : k' = k
-          · subst hkk; simp [removeNow] at h1
-          · simp [removeNow, hkk] at h1
-            exact hI.armed k' r' e h1 h2
+        exact rinv_of_refs hI ((frame_cancelOpt s r.gen r.cancelOf).trans (frame_setRec _ k none)).refs
       · simp at h
     · simp at h
   | timerRetry k =>
@@ -226,20 +151,14 @@ theorem rinv_step (s s' : St) (e : Ev) (hI : RInv s) (h : step s e = some s') : 
         have T1 : Touch k s (setRec s k (some { r with deferRetry := none })) :=
           touch_setRec k s r _ hr rfl rfl
         split
-        · exact rinv_touch hI (T1.trans (touch_startKey _ k true))
-        · exact rinv_touch hI T1
+        · exact rinv_of_refs hI (T1.trans (touch_startKey _ k true)).frame.refs
+        · exact rinv_of_refs hI T1.frame.refs
       · simp at h
     · simp at h
   | advance =>
     simp only [step] at h
     split at h
-    · rename_i hg
-      simp at h; subst h
-      refine ⟨hI.refs, fun hc => absurd hg.2.1 hc, ?_⟩
-      intro k r e h1 h2
-      have := hI.armed k r e h1 h2
-      show e ≤ s.epoch + 1
-      omega
+    · simp at h; subst h; exact rinv_of_refs hI rfl
     · simp at h
   | quiesce =>
     simp only [step] at h
@@ -258,11 +177,10 @@ theorem rinv_step (s s' : St) (e : Ev) (hI : RInv s) (h : step s e = some s') : 
   | nilnext k =>
     simp only [step] at h
     split at h
-    · simp at h; subst h; exact rinv_of_same hI rfl rfl rfl id
+    · simp at h; subst h; exact rinv_of_refs hI rfl
     · simp at h
 
-theorem rinv_init : RInv ({} : St) :=
-  ⟨fun x hx => by simp at hx, fun h => absurd rfl h, fun k r e h => by simp [St.key, look] at h⟩
+theorem rinv_init : RInv ({} : St) := ⟨fun x hx => by simp at hx⟩
 
 theorem rinv_reachable (s : St) (h : model.Reachable s) : RInv s :=
   model.invariant RInv rinv_init (fun s e s' hi hs => rinv_step s s' e hi hs) s h
